@@ -57,6 +57,8 @@ SCEN = {
     'UpgPair': lambda inv=(): sc('MC_UpgPair', 6, 7, inv),
     'UpgS': lambda inv=(): sc('MC_UpgS', 4, 5, inv),
     'UpgC': lambda inv=(): sc('MC_UpgC', 4, 5, inv),
+    'QuietS': lambda inv=(): sc('MC_QuietS', 4, 6, inv),
+    'QuietC': lambda inv=(): sc('MC_QuietC', 4, 6, inv),
 }
 
 
@@ -112,7 +114,7 @@ PROPS = {
             'lens': [(['r'], S('recv', 'dlv'))]},
     'C18': {'scenarios': scen('CloseS LifeS SetS HdrInS FrameS RawS RawC', ['P_C18_OneGoAwayWithCode', 'P_C18_SizeViolationsAreFrameSizeErrors']),
             'lens': [(['r', 'o'], S('recv', 'dlv'))]},
-    'C19': {'scenarios': scen('CloseS MiscC', ['P_C19_ClosedStaysQuiet']),
+    'C19': {'scenarios': scen('CloseS MiscC QuietS QuietC', ['P_C19_ClosedStaysQuiet', 'P_C19_GoAwayDiscardsOutput']),
             'lens': [(['r', 'o', 'z.conn'], ANY)]},
     'C20': {'scenarios': scen('LifeC LifeS Pair1 PushC', ['P_C20_ResetRacesAreStreamErrors']),
             'lens': [(['r', 'o', 'e', 'q.rw', 'z.iw', 'z.closed', 'z.streams.by', 'z.hp'], S('recv', 'dlv'))]},
